@@ -540,16 +540,20 @@ class A(param.Parameterized):
     x = param.Number(1, bounds=(0, 10))
     r = param.Range((0, 1))
     s = param.Selector(objects=[1, 2])
+    f = param.Filename(default=None, check_exists=True)
+    k = param.ClassSelector(class_=int, default=1)
 for label, attempt in (('B.x = 99', lambda B: setattr(B, 'x', 99)), ('B.r = 5', lambda B: setattr(B, 'r', 5)),
-                       ('B.param.update(x=77)', lambda B: B.param.update(x=77)), ('B.s = 3', lambda B: setattr(B, 's', 3))):
+                       ('B.param.update(x=77)', lambda B: B.param.update(x=77)), ('B.s = 3', lambda B: setattr(B, 's', 3)),
+                       ('B.f = <missing file>', lambda B: setattr(B, 'f', '/nonexistent/dir/file.txt')),
+                       ('B.k = "text"', lambda B: setattr(B, 'k', 'text'))):
     B = type('B', (A,), {})
     try:
         attempt(B)
         bad.append('%s was accepted' % label)
         continue
-    except (ValueError, TypeError):
+    except Exception:
         pass
-    own = [n for n in ('x', 'r', 's') if n in B.__dict__]
+    own = [n for n in ('x', 'r', 's', 'f', 'k') if n in B.__dict__]
     if own:
         bad.append('%s was rejected, but B now has its own Parameter(s) %r' % (label, own))
     A.x = 2.5
@@ -580,4 +584,11 @@ _c02_base2 = contracts
 
 
 def contracts():
-    return _c02_base2() + [class_set_contract()]
+    # the link step runs after the value has been stored: it must never reject (raise)
+    from contracts import c08 as _c08
+    links = [_c08.update_ref_contract(False), _c08.update_ref_contract(True)]
+    for c in links:
+        c.prop = "C02"
+        c.clause_prefixes = ["does-not-raise"]
+        c.name = c.name + " (never rejects: it runs after the store)"
+    return _c02_base2() + [class_set_contract()] + links
